@@ -131,17 +131,98 @@ pub enum Id {
     Str(Vec<u8>),
 }
 
-pub fn expand_uri(template: &[u8], id: &Id) -> String {
-    let idv = match id {
+pub const URI_ERR: &str = "<uri-template-error>";
+
+pub fn base64url_padded(bytes: &[u8]) -> String {
+    const A: &[u8; 64] = b"ABCDEFGHIJKLMNOPQRSTUVWXYZabcdefghijklmnopqrstuvwxyz0123456789-_";
+    let mut out = String::new();
+    for c in bytes.chunks(3) {
+        let v = (c[0] as u32) << 16 | (*c.get(1).unwrap_or(&0) as u32) << 8 | *c.get(2).unwrap_or(&0) as u32;
+        out.push(A[(v >> 18) as usize & 63] as char);
+        out.push(A[(v >> 12) as usize & 63] as char);
+        out.push(if c.len() > 1 { A[(v >> 6) as usize & 63] as char } else { '=' });
+        out.push(if c.len() > 2 { A[v as usize & 63] as char } else { '=' });
+    }
+    out
+}
+
+/// (value of `id`, value of `id64` already percent-encoded) for an entry id
+pub fn id_values(id: &Id) -> (String, String) {
+    let bytes: Vec<u8> = match id {
         Id::Num(n) => {
             let b = n.to_be_bytes();
             let skip = b.iter().take_while(|x| **x == 0).count().min(3);
-            base32hex(&b[skip..])
+            b[skip..].to_vec()
         }
-        Id::Str(s) => base32hex(s),
+        Id::Str(s) => s.clone(),
     };
-    let t = String::from_utf8_lossy(template).to_string();
-    t.replace("{id}", &idv)
+    let id64: String = base64url_padded(&bytes)
+        .chars()
+        .map(|c| {
+            if c.is_ascii_alphanumeric() || "-._~".contains(c) {
+                c.to_string()
+            } else {
+                format!("%{:02X}", c as u32)
+            }
+        })
+        .collect();
+    (base32hex(&bytes), id64)
+}
+
+/// Reference expansion of an IFT URI template (RFC 6570 level 1 restricted to the variables id, id64,
+/// d1..d4), written from the doc comments and tests of uri_templates.rs:
+///  * `{name}` must be exactly one of the six variables; anything else, an unterminated expression or a
+///    stray `}` is an error; dN is the N-th character of the id value counted from its end, `_` if absent;
+///  * `%` must be followed by two hex digits, the triplet is copied;
+///  * literal bytes allowed by RFC 6570 section 2.1 are copied when reserved/unreserved and percent
+///    encoded (upper case hex) otherwise (in practice: every non-ASCII byte); all other bytes are errors.
+pub fn expand_template_ref(template: &[u8], idv: &str, id64v: &str) -> Option<String> {
+    let mut out = String::new();
+    let mut i = 0;
+    while i < template.len() {
+        let b = template[i];
+        match b {
+            b'{' => {
+                let end = template[i..].iter().position(|x| *x == b'}')? + i;
+                match &template[i + 1..end] {
+                    b"id" => out.push_str(idv),
+                    b"id64" => out.push_str(id64v),
+                    [b'd', n @ b'1'..=b'4'] => {
+                        let k = (*n - b'0') as usize;
+                        let c = idv.len().checked_sub(k).map(|p| idv.as_bytes()[p]).unwrap_or(b'_');
+                        out.push(c as char);
+                    }
+                    _ => return None,
+                }
+                i = end + 1;
+            }
+            b'%' => {
+                let h = template.get(i + 1..i + 3)?;
+                if !h.iter().all(|x| x.is_ascii_hexdigit()) {
+                    return None;
+                }
+                out.push('%');
+                out.push(h[0] as char);
+                out.push(h[1] as char);
+                i += 3;
+            }
+            0x21 | 0x23..=0x24 | 0x26 | 0x28..=0x3B | 0x3D | 0x3F..=0x5B | 0x5D | 0x5F | 0x61..=0x7A | 0x7E => {
+                out.push(b as char);
+                i += 1;
+            }
+            0x80..=0xFF => {
+                out.push_str(&format!("%{:02X}", b));
+                i += 1;
+            }
+            _ => return None,
+        }
+    }
+    Some(out)
+}
+
+pub fn expand_uri(template: &[u8], id: &Id) -> String {
+    let (idv, id64v) = id_values(id);
+    expand_template_ref(template, &idv, &id64v).unwrap_or_else(|| URI_ERR.to_string())
 }
 
 // ---------------------------------------------------------------------------
@@ -723,6 +804,9 @@ pub fn t2_ids(t: &T2) -> Result<Vec<Id>, &'static str> {
 
 /// Reference for a format-2 table. `Err` = the table must be rejected.
 pub fn ref_t2(t: &T2, table: u8, d: &Def) -> Result<Vec<RefPatch>, &'static str> {
+    if std::str::from_utf8(&t.template).is_err() {
+        return Err("template not utf8");
+    }
     if !(1..=3).contains(&t.default_format) {
         return Err("bad default format");
     }
